@@ -1942,7 +1942,7 @@ func (ff *FuncFacts) assign(x *ast.AssignStmt, st *State) *State {
 		}
 		// a single-value call result gets a site term too, so that facts
 		// about "the value returned here" survive reassignment of the variable
-		if (lt.K == 'v' || lt.K == 'f') && ff.pureTerm(rt) {
+		if (lt.K == 'v' || lt.K == 'f' || lt.K == 'i') && ff.pureTerm(rt) {
 			st = st.add(mkFact(true, "eq", lt, rt))
 			if isFresh(rt) {
 				st = st.add(mkFact(false, "eq", lt, TNil()))
@@ -2830,4 +2830,127 @@ func (fs *FuncSrc) localVar(name string) types.Object {
 		return true
 	})
 	return out
+}
+
+// ---------- path-sensitive exploration ----------
+
+// PathVisit is called for every CFG node on an explored path with the state
+// accumulated along that path only (no joins) and the calls executed so far.
+type PathVisit func(n ast.Node, st *State, trace []*ast.CallExpr) (stop bool)
+
+// ExplorePaths enumerates the paths of the function from its entry (each
+// block at most twice per path, at most maxPaths paths), threading the
+// must-fact transfer function along each path separately.  It returns false
+// if the path budget was exhausted (the caller must then report undecided).
+func (ff *FuncFacts) ExplorePaths(visit PathVisit, atExit func(st *State, trace []*ast.CallExpr, last ast.Node), maxPaths int) bool {
+	if len(ff.graph.Blocks) == 0 {
+		return true
+	}
+	npaths := 0
+	ok := true
+	count := map[*cfg.Block]int{}
+	var walk func(b *cfg.Block, st *State, trace []*ast.CallExpr)
+	walk = func(b *cfg.Block, st *State, trace []*ast.CallExpr) {
+		if !ok || st == nil {
+			return
+		}
+		if count[b] >= 2 {
+			return
+		}
+		count[b]++
+		defer func() { count[b]-- }()
+		if b.Kind == cfg.KindRangeBody {
+			if rs, isR := b.Stmt.(*ast.RangeStmt); isR {
+				for _, e := range []ast.Expr{rs.Key, rs.Value} {
+					if e != nil {
+						if t := ff.term(e); t != nil {
+							st = ff.killTerm(st, t)
+						}
+					}
+				}
+			}
+		}
+		var lastExpr ast.Expr
+		var last ast.Node
+		for _, n := range b.Nodes {
+			last = n
+			lastExpr = nil
+			if visit != nil && visit(n, st, trace) {
+				return
+			}
+			// calls executed by this node, in source order
+			ast.Inspect(n, func(x ast.Node) bool {
+				switch y := x.(type) {
+				case *ast.FuncLit:
+					return false
+				case *ast.CallExpr:
+					trace = append(trace[:len(trace):len(trace)], y)
+				}
+				return true
+			})
+			st = ff.node(n, st, false)
+			if e, isE := n.(ast.Expr); isE {
+				lastExpr = e
+			}
+		}
+		if len(b.Succs) == 0 {
+			npaths++
+			if npaths > maxPaths {
+				ok = false
+				return
+			}
+			if atExit != nil {
+				atExit(st, trace, last)
+			}
+			return
+		}
+		outs := make([]*State, len(b.Succs))
+		for i := range outs {
+			outs[i] = st
+		}
+		if len(b.Succs) == 2 && lastExpr != nil && ff.condOf(b) != nil {
+			outs[0] = ff.assume(st, lastExpr, true)
+			outs[1] = ff.assume(st, lastExpr, false)
+		} else if len(b.Succs) == 2 && lastExpr != nil {
+			// switch case with a tag
+			if cc, isCC := ff.eng.p.Parent(ff.fs.File, lastExpr).(*ast.CaseClause); isCC {
+				if sw, isSw := ff.eng.p.Parent(ff.fs.File, ff.eng.p.Parent(ff.fs.File, cc)).(*ast.SwitchStmt); isSw && sw.Tag != nil {
+					a, c := ff.term(sw.Tag), ff.term(lastExpr)
+					if a != nil && c != nil {
+						outs[0] = st.add(mkFact(true, "eq", a, c))
+						outs[1] = st.add(mkFact(false, "eq", a, c))
+					}
+				}
+			}
+		}
+		for i, s := range b.Succs {
+			if !s.Live {
+				continue
+			}
+			// infeasible edge: the path state contradicts what the edge establishes
+			if contradictory(outs[i]) {
+				continue
+			}
+			walk(s, outs[i], trace)
+		}
+	}
+	walk(ff.graph.Blocks[0], emptyState, nil)
+	return ok
+}
+
+// contradictory: the state contains an atom with both signs.
+func contradictory(st *State) bool {
+	if st == nil {
+		return true
+	}
+	for k, f := range st.m {
+		if f.Op == "imp" {
+			continue
+		}
+		if _, both := st.m[negKey(f)]; both {
+			_ = k
+			return true
+		}
+	}
+	return false
 }
